@@ -126,6 +126,7 @@ def run_history(kind, hist, scratch, counters):
     marks = []      # every marker string ever handed to the cache
     universe = sorted(set(h["key"] for h in hist if h["key"]))
     out = []
+    last_read = [None]
 
     def bad(step, read, key, kind_, detail):
         out.append({"step": step, "read": read, "key": key, "kind": kind_, "detail": detail, "op": hist[step]["op"],
@@ -193,7 +194,19 @@ def run_history(kind, hist, scratch, counters):
         except Exception as e:
             listed = None
             bad(i, "keys", "", "raises:" + type(e).__name__, repr(e)[:120])
-        for key in universe:
+        # the keys are looked up in an order that changes from step to step, beginning with the key looked up last in the
+        # previous step and with the key of the operation (anything a back-end remembers about its latest lookup is probed)
+        order = list(universe)
+        if i % 2 == 1:
+            order.reverse()
+        if k in order:
+            order.remove(k)
+            order.insert(1 if len(order) > 0 else 0, k)
+        if last_read[0] in order:
+            order.remove(last_read[0])
+            order.insert(0, last_read[0])
+        for key in order:
+            last_read[0] = key
             m = model.get(key)
             counters["reads"] = counters.get("reads", 0) + 1
             try:
